@@ -1,10 +1,12 @@
 """C04 — break controls are honoured."""
 import itertools
+import json
 
 from extract import break_table
 from harness import docs, pm, pm_corr
 from vlib import sx
 from vlib.framework import PropCheck
+from vlib.paths import CORPUS
 
 VALUES = break_table.VALUES
 FORCE_PAGE = {'page', 'left', 'right', 'recto', 'verso'}
@@ -191,6 +193,19 @@ class C04(PropCheck):
         for line, meta, nontrivial in break_family_cases():
             sec5.add(line, 'ok', meta=meta, nontrivial=nontrivial, tags=[meta['doc_id'].split('-')[1]])
 
+        sec6 = run.section(
+            'avoid-families',
+            'deterministic documents (harness/families.py avoid_documents): break-before/after: avoid between table '
+            'rows and between a heading and a table / list / multi-column container, break-inside: avoid on rows, '
+            'cells, list items and blocks holding a table, at every position near the page bottom; observed pages '
+            'checked by the Lean checker (C04Trace.avoid_obs_sound / inside_obs_sound): honoured unless the unit is '
+            'the first content of its page; documents already failing on the pinned tree are listed by id in '
+            'corpus/C04/family_known.json; non-trivial = the document has at least 2 pages')
+        known_path = CORPUS / 'C04' / 'family_known.json'
+        self._avoid_known = json.loads(known_path.read_text()) if known_path.exists() else []
+        for line, meta, nontrivial in avoid_family_cases():
+            sec6.add(line, 'ok', meta=meta, nontrivial=nontrivial, tags=[meta['doc_id'].split('-')[1]])
+
         class Ctx:
             def __init__(self, col):
                 self.in_column = col
@@ -200,7 +215,15 @@ class C04(PropCheck):
                 sec3.add(sx.line('avoids', col, v), str(bool(block.avoid_page_break(v, Ctx(col)))).lower())
                 sec3.add(sx.line('forces', col, v), str(bool(block.force_page_break(v, Ctx(col)))).lower())
 
+    def classify(self, d):
+        if d['section'] == 'avoid-families' and d['meta']['doc_id'] in self._avoid_known:
+            return 'avoid-family-documents-known'
+        return None
+
     def judge(self, d):
+        if d['section'] == 'avoid-families':
+            return (f'{d["meta"]["doc_id"]}: avoided break not honoured although the unit is not the first content of '
+                    f'its page: {d["model"]}; between={d["meta"]["between"]} inside={d["meta"]["inside"]}')
         if d['section'] == 'break-families':
             return (f'{d["meta"]["doc_id"]}: forced break / page side not honoured for observations {d["model"]}: '
                     f'{d["meta"]["observations"]}')
@@ -276,6 +299,15 @@ class C04(PropCheck):
 
     def replay(self, data):
         inp = data.get('input', {})
+        meta = inp.get('meta') if isinstance(inp.get('meta'), dict) else {}
+        doc_id = str(meta.get('doc_id', ''))
+        if doc_id.startswith(('avoid-', 'brk-')):
+            from vlib import lean
+            cases = avoid_family_cases(doc_id) if doc_id.startswith('avoid-') else break_family_cases(doc_id)
+            for line, new_meta, _ in cases:
+                out = lean.run_driver(self.driver, [line])[0]
+                return None if out == 'ok' else f'{doc_id}: break control not honoured, checker says {out}: {new_meta}'
+            return None
         if 'meta' in inp and isinstance(inp['meta'], dict) and 'doc' in inp['meta']:
             doc = pm_corr.doc_from_json(inp['meta']['doc'])
             return pm_break_violation(doc, pm_corr.real_line(doc))
@@ -292,11 +324,48 @@ class C04(PropCheck):
         return None
 
 
-def break_family_cases():
+def avoid_family_cases(only=None):
+    """(protocol line, meta, nontrivial) for every document of families.avoid_documents()."""
+    from harness import families, widegen
+    docs.quiet()
+    for doc_id, html, between, inside in families.avoid_documents():
+        if only and doc_id != only:
+            continue
+        try:
+            with docs.time_limit(20):
+                document = docs.render(html)
+        except Exception:  # noqa: BLE001 - left to C02
+            continue
+        pages = widegen.page_words(document)
+        where = {}
+        for index, words in enumerate(pages):
+            for word in words:
+                where.setdefault(word, []).append(index)
+        obs_between, obs_inside = [], []
+        for values, words_a, words_b in between:
+            pages_a = [p for word in words_a for p in where.get(word, [])]
+            pages_b = [p for word in words_b for p in where.get(word, [])]
+            if not pages_a or not pages_b:
+                continue
+            page_a = max(pages_a)
+            obs_between.append([values, page_a, min(pages_b), pages[page_a][0] in words_a])
+        for value, words in inside:
+            on = sorted({p for word in words for p in where.get(word, [])})
+            if not on:
+                continue
+            obs_inside.append([value, len(on), pages[on[0]][0] in words])
+        line = sx.line('avoid-obs', obs_between, obs_inside)
+        meta = {'doc_id': doc_id, 'html': html, 'between': obs_between, 'inside': obs_inside, 'pages': pages}
+        yield line, meta, len(pages) >= 2
+
+
+def break_family_cases(only=None):
     """(protocol line, meta, nontrivial) for every document of families.break_documents()."""
     from harness import families, widegen
     docs.quiet()
     for doc_id, html, observations in families.break_documents():
+        if only and doc_id != only:
+            continue
         try:
             with docs.time_limit(20):
                 document = docs.render(html)
